@@ -221,10 +221,12 @@ func cmdTwin(args []string) {
 	for i := 0; i < *n; i++ {
 		r := newRng(seed*9_000_011 + uint64(i))
 		w := focusWeights[focuses[i%len(focuses)]]
+		w.reimportEvery = 0 // the twins replay recorded blocks: an export + import is not a block
 		w.checkPerBlock = 0
 		c := newChain(randCfg(r, true))
 		h := newHistory(c, r, w)
 		h.focus = focuses[i%len(focuses)]
+		h.futureSubmit = 2 // values a node could be tempted to compare with its own clock
 		h.run(*blocks)
 		for k, v := range h.kinds {
 			kinds[k] += v
